@@ -1231,6 +1231,40 @@ func c13JSON(p *core.Program, r *core.Report, typesPkg *ssa.Package) {
 		}
 	}
 	r.Check(okQuotes, "R6", "decimal.MarshalJSONWithoutQuotes", "excellent/types/number.go", "set to true in init", "decimal.MarshalJSONWithoutQuotes is not set: json(1.5) would be the string \"1.5\", not the number")
+	// one zone per rendering: a method of XDateTime that converts its receiver with In(...) takes every component it
+	// prints (Date(), Time(), Native(), Format...) from the converted value, never from the receiver itself
+	if dt := p.NamedType("excellent/types", "XDateTime"); dt != nil {
+		ms := p.SSA.MethodSets.MethodSet(types.NewPointer(dt))
+		nConv := 0
+		for i := 0; i < ms.Len(); i++ {
+			fn := p.SSA.MethodValue(ms.At(i))
+			if fn == nil || fn.Blocks == nil || len(fn.Params) == 0 || fn.Name() == "In" {
+				continue
+			}
+			recv := fn.Params[0]
+			converts := false
+			var unconverted []string
+			for _, cs := range core.Calls(fn, false) {
+				g := cs.Common().StaticCallee()
+				if g == nil || len(cs.Common().Args) == 0 || cs.Common().Args[0] != ssa.Value(recv) {
+					continue
+				}
+				switch g.Name() {
+				case "In":
+					converts = true
+				case "Date", "Time", "Native", "Format", "FormatCustom", "Render":
+					unconverted = append(unconverted, g.Name()+"() at "+p.Pos(cs.Pos()))
+				}
+			}
+			if !converts {
+				continue
+			}
+			nConv++
+			r.Check(len(unconverted) == 0, "R3", "XDateTime."+fn.Name()+"/one-zone", p.Pos(fn.Pos()), "every component comes from the value converted with In(...)",
+				"XDateTime."+fn.Name()+" converts the value to a timezone with In(...) but also takes "+strings.Join(unconverted, ", ")+" from the unconverted receiver: date and time of one rendering come from two zones, and the text parses back a day off for instants near midnight")
+		}
+		r.Count("datetime_methods_converting_zone", nConv)
+	}
 	// every XValue implementation marshals itself
 	if iface := p.Interface("excellent/types", "XValue"); iface != nil {
 		n := 0
@@ -1243,6 +1277,30 @@ func c13JSON(p *core.Program, r *core.Report, typesPkg *ssa.Package) {
 			r.Check(m != nil, "R6", named.Obj().Name()+"/MarshalJSON", p.Pos(named.Obj().Pos()), "has its own MarshalJSON", named.Obj().Name()+" has no MarshalJSON: json() falls back to reflection over unexported fields")
 		}
 		r.Require("xvalue_types", n, 9)
+	}
+	// text goes through the JSON encoder: Go's quoting (strconv.Quote, %q) writes \a, \v, \xNN, \UXXXXXXXX, which JSON
+	// does not know; the document written back is then no JSON at all
+	if m := p.Method("excellent/types", "XText", "MarshalJSON"); m != nil {
+		okEnc, goQuote := false, ""
+		for _, ret := range core.Returns(m) {
+			for v := range core.BackSlice(ret.Results[0], func(*ssa.Call) bool { return true }) {
+				c, ok := v.(*ssa.Call)
+				if !ok {
+					continue
+				}
+				if o := core.CalleeObj(&c.Call); o != nil {
+					switch n := core.ObjName(o); {
+					case strings.HasSuffix(n, "jsonx.Marshal") || n == "encoding/json.Marshal":
+						okEnc = true
+					case n == "strconv.Quote" || n == "strconv.QuoteToASCII" || n == "fmt.Sprintf":
+						goQuote = n
+					}
+				}
+			}
+		}
+		r.Check(okEnc && goQuote == "", "R6", "XText.MarshalJSON/json-encoder", p.Pos(m.Pos()), "the text is written by the JSON encoder", "XText.MarshalJSON writes the text with "+goQuote+" instead of the JSON encoder: control characters come out as Go escapes that are not JSON, ToXJSON fails and the object/array marshalers drop the member")
+	} else {
+		r.Errorf("XText.MarshalJSON not found")
 	}
 	// array and object marshalers: one ToXJSON per element, stored under the element's own index/key
 	for _, tn := range []string{"XArray", "XObject"} {
